@@ -41,7 +41,8 @@ class LogicalCall:
 ERR_CODES: List[int] = [2001, 2002, 1, -1, 12345, -32000, -32099, -32602, 2 ** 53 + 1, -32600, -32700, -32601]
 ERR_MESSAGES: List[str] = ['m', 'boom', 'x y z', 'é']
 EXC_KINDS: List[str] = ['value', 'key', 'type', 'assert', 'runtime', 'custom', 'lookup', 'oserror', 'validation',
-                        'badrepr']
+                        'badrepr', 'timeout', 'aio_timeout', 'fut_cancelled', 'connreset', 'zerodiv', 'notimpl', 'attr',
+                        'recursion', 'group', 'unicode', 'stopaiter']
 
 
 def logical_call(ch: Choices, tok: str, allow_fail: bool = True, allow_notification: bool = True,
